@@ -432,10 +432,10 @@ impl Check for C19Check {
     }
     fn phases(&self, tier: Tier) -> Vec<Phase> {
         vec![
-            Phase::random("graphs", tier.pick(40_000, 1_000_000), 200).with_min_tape(40).with_chunk(512),
+            Phase::random("graphs", tier.pick(200_000, 2_000_000), 200).with_min_tape(40).with_chunk(512),
             Phase::exhaustive("pool-programs", POOL.len() as u64).with_chunk(1),
-            Phase::random("random-programs", tier.pick(3_000, 100_000), 160).with_min_tape(24).with_chunk(64),
-            Phase::random("clones", tier.pick(20_000, 500_000), 160).with_min_tape(30).with_chunk(512),
+            Phase::random("random-programs", tier.pick(15_000, 200_000), 160).with_min_tape(24).with_chunk(64),
+            Phase::random("clones", tier.pick(100_000, 1_000_000), 160).with_min_tape(30).with_chunk(512),
         ]
     }
     fn run(&self, _tier: Tier, phase: usize, input: &Input, ctx: &mut CaseCtx) {
